@@ -434,6 +434,8 @@ pub mod verif_hooks {
     pub use crate::expression::verif_hooks::*;
     pub use crate::operators::{BinOpWithIdx, OperateBinary, UnaryFuncWithIdx, UnaryOp};
     pub use crate::parser::verif_hooks::next_char_boundary;
+    #[cfg(feature = "value")]
+    pub use crate::value::verif_hooks as val;
     pub use crate::parser::{
         check_parsed_token_preconditions, find_parsed_vars, find_var_index, is_numeric_text,
         is_operator_binary, Paren, ParsedToken,
